@@ -672,6 +672,9 @@ func siC03(r *siReport) {
 		{"string/chunks-3+short", []byte{'R', 0, 3, 'a', 'b', 'c', 0x02, 'd', 'e'}, "abcde"},
 		{"binary/chunks-1+3", []byte{0x41, 0, 1, 9, 'B', 0, 3, 1, 2, 3}, []byte{9, 1, 2, 3}},
 		{"binary/empty-chunk-first", []byte{0x41, 0, 0, 0x22, 7, 8}, []byte{7, 8}},
+		{"binary/two-octet-form-3", []byte{0x34, 3, 1, 2, 3}, []byte{1, 2, 3}},
+		{"binary/two-octet-form-260", append([]byte{0x35, 4}, bytes.Repeat([]byte{7}, 260)...), bytes.Repeat([]byte{7}, 260)},
+		{"binary/chunk-then-two-octet", []byte{0x41, 0, 1, 9, 0x34, 2, 1, 2}, []byte{9, 1, 2}},
 		{"list/var-untyped", []byte{0x57, 0x90, 0x91, 'Z'}, []interface{}{int32(0), int32(1)}},
 		{"list/var-typed", []byte{0x55, 4, '[', 'i', 'n', 't', 0x90, 0x91, 'Z'}, []int32{0, 1}},
 		{"list/fixed-typed-V", []byte{'V', 4, '[', 'i', 'n', 't', 0x92, 0x90, 0x91}, []int32{0, 1}},
@@ -699,7 +702,7 @@ func siC03(r *siReport) {
 			r.ok(c.name)
 		}
 	}
-	r.done("22 hand-written alternative encodings from the grammar (full-width/compact scalars, chunk splits, variable/fixed/compact lists, type back-reference, long-form instance)")
+	r.done("25 hand-written alternative encodings from the grammar (full-width/compact scalars, chunk splits, variable/fixed/compact lists, type back-reference, long-form instance)")
 }
 
 // ---------------------------------------------------------------- C06: streaming
